@@ -388,9 +388,19 @@ func ruleReaderErrorReplies(c *chk.Ctx) {
 				}
 			}
 			if bo, ok := cd.V.(*ssa.BinOp); ok && bo.Op == token.EQL && cd.Truth {
-				if _, isLen := ir.LenOf(bo.X); isLen {
+				if x, isLen := ir.LenOf(bo.X); isLen {
 					if k, isC := ir.ConstInt(bo.Y); isC && k == 0 {
 						role = "empty batch"
+						// it must be the parsed message that is empty, not what is left after replies were filtered out
+						ff := filterFunc(c)
+						for _, src := range c.P.SourcesStop(x, func(v ssa.Value) bool {
+							call, ok := v.(*ssa.Call)
+							return ok && ff != nil && call.Call.StaticCallee() == ff
+						}) {
+							if call, ok := src.(*ssa.Call); ok && ff != nil && call.Call.StaticCallee() == ff {
+								role = "empty after filtering"
+							}
+						}
 					}
 				}
 			}
@@ -402,6 +412,8 @@ func ruleReaderErrorReplies(c *chk.Ctx) {
 		case "empty batch":
 			g := errGlobalOf(c, p.arg)
 			c.Check(g != nil && globs[g] == -32600, "PAIR.readerr", reader, "empty batch answered", p.ci.Pos(), "on the len == 0 edge the reader pushes the -32600 sentinel", "the empty-batch edge does not push a -32600 sentinel")
+		case "empty after filtering":
+			c.Fail("PAIR.readerr", reader, "empty batch answered", p.ci.Pos(), "the empty-batch error is pushed when the batch is empty after reply filtering, not when the parsed message is empty: a message that consists only of callback replies (nothing to report) would be answered with an uncorrelated error")
 		default:
 			c.Undecided("PAIR.readerr", reader, "direct error push", p.ci.Pos(), "unrecognised condition for a direct error push")
 		}
